@@ -32,6 +32,8 @@ var profilesFor = map[string][]string{
 	"C02": {"selection"},
 	"C03": {"utxo"},
 	"C04": {"crash"},
+	"C09": {"retarget"},
+	"C17": {"headers"},
 }
 
 func drawNet(r *simkit.Run, prof string) *NetCfg {
@@ -46,6 +48,26 @@ func drawNet(r *simkit.Run, prof string) *NetCfg {
 		BIP66:           int32(simkit.Range(c, 1, 4, "bip66")),
 		SubsidyInterval: []int32{150, 10, 3}[c.Intn(3, "halving")],
 		Window:          8, Threshold: 6,
+	}
+	if prof == "retarget" || (prof == "headers" && c.Bool(300, "hdr-retarget")) {
+		// synthetic difficulty parameters: short retarget interval, clamps,
+		// testnet min-difficulty rule, BIP94, or a no-retarget network
+		d := &n.Diff
+		d.NoRetarget = c.Bool(100, "no-retarget")
+		iv := int64(simkit.Range(c, 3, 12, "retarget-interval"))
+		d.SpacingS = []int64{600, 120, 60}[c.Intn(3, "spacing")]
+		d.TimespanS = iv * d.SpacingS
+		d.Factor = int64(simkit.Range(c, 2, 4, "factor"))
+		d.ReduceMinDiff = c.Bool(400, "min-diff-rule")
+		d.MinDiffTimeS = 2 * d.SpacingS
+		d.BIP94 = c.Bool(400, "bip94")
+		if c.Bool(300, "lower-pow-limit") {
+			sh := uint(simkit.Range(c, 1, 6, "pow-limit-shift"))
+			d.PowLimit = new(big.Int).Rsh(lim, sh)
+			d.PowLimitBits = bigToCompact(d.PowLimit)
+			d.PowLimit, _, _ = compactToBig(d.PowLimitBits)
+		}
+		n.SubsidyInterval = []int32{150, 10, 3, 1}[c.Intn(4, "halving2")]
 	}
 	act := uint32(1)
 	if c.Bool(250, "late-activation") {
@@ -103,6 +125,7 @@ func run(r *simkit.Run) {
 	}()
 	s := &Sim{r: r, w: w, n: n, prof: prof, delivered: map[*MBlock]bool{}, doubt: map[*MBlock]bool{}, manualInv: map[*MBlock]bool{}}
 	n.onTip = func(t *MBlock) { s.announced = append(s.announced, announce{s.commits(), t}) }
+	s.resetHeaders()
 	s.CheckState("genesis")
 
 	// profile weights
@@ -120,8 +143,17 @@ func run(r *simkit.Run) {
 	case "crash":
 		pMut, pLimit = 100, 60
 		maxTx = 4
+	case "headers":
+		pMut, pLimit, pOOO = 120, 40, 250
+		maxTx = 1
+	case "retarget":
+		pMut, pLimit = 150, 100
+		maxTx = 1
 	}
 	steps := simkit.Range(c, 15, 70, "steps")
+	if prof == "headers" {
+		steps = simkit.Range(c, 30, 160, "steps")
+	}
 	if prof == "crash" {
 		steps = simkit.Range(c, 8, 40, "steps")
 	}
@@ -132,8 +164,38 @@ func run(r *simkit.Run) {
 		if prof == "selection" {
 			wInv = 5
 		}
-		ev := simkit.Pick(c, "event", 40, 40, 4, 4, 3, 3, 4, 2, wInv, wInv)
+		wHdr, wQry, wAri := 0, 0, 0
+		switch prof {
+		case "headers":
+			wHdr, wQry, wAri = 35, 8, 1
+		case "retarget":
+			wHdr, wQry, wAri = 10, 1, 8
+		}
+		ev := simkit.Pick(c, "event", 40, 40, 4, 4, 3, 3, 4, 2, wInv, wInv, wHdr, wQry, wAri)
 		switch ev {
+		case 10: // deliver a header (usually parent first, sometimes any)
+			var cands []*MBlock
+			for _, b := range w.Blocks[1:] {
+				if !s.nodeKnown(b) && (s.nodeKnown(b.Parent) || c.Bool(100, "orphan-header")) {
+					cands = append(cands, b)
+				}
+			}
+			if len(cands) == 0 || c.Bool(100, "known-header") {
+				cands = w.Blocks[1:]
+			}
+			if len(cands) == 0 {
+				continue
+			}
+			b := cands[c.Intn(len(cands), "which-header")]
+			if b.H.ts > s.adjNow()+7200 && !c.Bool(150, "header-too-new") {
+				s.ensureClock(b)
+			}
+			s.DeliverHeader(b)
+			s.CheckState("header")
+		case 11:
+			s.CheckQueries()
+		case 12:
+			s.CheckArith()
 		case 8: // invalidate a delivered block
 			var cands []*MBlock
 			for _, b := range w.Blocks[1:] {
@@ -146,6 +208,7 @@ func run(r *simkit.Run) {
 			}
 			b := cands[c.Intn(len(cands), "invalidate")]
 			err := n.Chain.InvalidateBlock(&b.Hash)
+			s.everInv = true
 			if !s.excluded(b) {
 				// invalidating a block that is already excluded through an
 				// ancestor changes nothing
@@ -183,6 +246,9 @@ func run(r *simkit.Run) {
 		case 0: // mine a block somewhere
 			parent := s.pickParent()
 			o := BlockOpts{NTx: c.Intn(maxTx+1, "ntx")}
+			if prof == "retarget" || prof == "headers" {
+				o.TsDelta = s.steerTimestamp(parent)
+			}
 			if c.Bool(pMut, "mutant") {
 				o.Mut = invMuts[c.Intn(len(invMuts), "which-mut")]
 			} else if c.Bool(pLimit, "limit") {
@@ -254,6 +320,7 @@ func run(r *simkit.Run) {
 				}
 			}
 			s.restarts++
+			s.resetHeaders()
 			r.Event("restart", "clean=%v tip=%v", clean, n.Tip())
 			r.Sig(fmt.Sprintf("restart:%v", clean))
 			s.CheckState("restart")
@@ -291,6 +358,10 @@ func run(r *simkit.Run) {
 	}
 	s.CheckState("final")
 	s.CheckUtxoLive()
+	if prof == "headers" || prof == "retarget" {
+		s.CheckQueries()
+		s.CheckArith()
+	}
 	if prof == "crash" {
 		s.crashEnumerate()
 	}
@@ -331,6 +402,35 @@ func (s *Sim) pickParent() *MBlock {
 			return best
 		}
 		return leaves[c.Intn(len(leaves), "leaf")]
+	}
+}
+
+// steerTimestamp picks the gap to the parent's timestamp so that retarget
+// clamps, the min-difficulty rule and BIP94 edges are hit, while keeping the
+// mining cost bounded (slow blocks once the target got small).
+func (s *Sim) steerTimestamp(parent *MBlock) int64 {
+	c := s.r.C
+	d := &s.w.Net.Diff
+	t, _, _ := compactToBig(parent.H.bits)
+	if t.BitLen() < 244 {
+		// difficulty already 2^11 times the minimum: slow down
+		return d.SpacingS * d.Factor * 2
+	}
+	switch simkit.Pick(c, "ts-steer", 30, 15, 15, 10, 10, 10, 10) {
+	case 0:
+		return int64(simkit.Range(c, 1, int(2*d.SpacingS), "ts-delta"))
+	case 1:
+		return 1
+	case 2:
+		return d.SpacingS * d.Factor * 2
+	case 3:
+		return d.MinDiffTimeS
+	case 4:
+		return d.MinDiffTimeS + 1
+	case 5:
+		return d.SpacingS / d.Factor
+	default:
+		return d.SpacingS
 	}
 }
 
